@@ -242,6 +242,16 @@ func discharge(obls []*Obligation, cfg runCfg) {
 					to = 10000 // a known finding, or already failing in another instance: do not wait for the full budget
 				}
 				o.Res = solve(q, to, cfg.allSolver, nil, o.Kind == "cover")
+				if o.Kind == "cover" && o.PreScript != nil && o.Res.Verdict == "unsat" {
+					// infeasible after the call: a contradictory contract only if the call site itself is reachable
+					pre := *o
+					pre.Script = o.PreScript
+					pr := solve(buildQuery(&pre, true), to, false, nil, true)
+					if pr.Verdict == "unsat" {
+						o.Res.Verdict = "sat"
+						o.Res.Solver += " (call site unreachable)"
+					}
+				}
 				ok := o.Res.Verdict == "unsat"
 				if o.Kind == "cover" {
 					ok = true
